@@ -1070,7 +1070,7 @@ Lemma lossless_map_refuted :
     ~ In ([PField "id"], 9%N, 7%N) (leaves (fst y) (snd y) []).
 Proof.
   exists wit_map,
-    (TRec [("id", TPrim 9); ("m", TMap (TUnion [TPrim 25; TPrim 25]) (TUnion [TPrim 9; TPrim 25]))]),
+    (TRec [("id", TPrim 9); ("m", TMap (TPrim 25) (TUnion [TPrim 9; TPrim 25]))]),
     (TRec [("id", TPrim 9); ("m", TMap (TPrim 25) (TPrim 9))], VList [VPrim 7; VList [VPrim 97; VPrim 1]]),
     (ty_err, VNull).
   split; [vm_compute; reflexivity|]. split; [vm_compute; reflexivity|].
